@@ -226,3 +226,7 @@ impl Default for FirstPerson {
         Self::new()
     }
 }
+
+#[cfg(kani)]
+#[path = "/verif/kani/cam.rs"]
+pub(crate) mod verif_kani;
